@@ -48,41 +48,13 @@ Definition w_example : list op :=
    OAdvance 10;
    OFilter {| u_secure := true; u_host := [101; 120; 97; 109; 112; 108; 101; 46; 99; 111; 109]; u_path := [47; 120] |}].
 
-Lemma refute (unsafe : bool) t0 ops out rout n v :
-  snd (run (empty_jar unsafe, t0) ops) = [out] -> snd (rfc_run unsafe ([], t0) ops) = [rout] ->
-  In (n, v) out -> ~ In (n, v) rout -> ~ attached_allowed unsafe t0 ops.
-Proof.
-  intros A B C D H. unfold attached_allowed in H. rewrite A, B in H. inversion H; subst. auto.
-Qed.
-
-Lemma epoch_zero_refuted : expires_value_used 0%Z = false ->
-  forallb op_hosts_okb w_epoch_zero = true /\ ~ attached_allowed false T0 w_epoch_zero.
-Proof.
-  intro E. split; [vm_compute; reflexivity|].
-  apply (refute false T0 w_epoch_zero [(s_a, s_v2)] [] s_a s_v2).
-  - unfold w_epoch_zero. cbn -[expires_value_used]. rewrite E. vm_compute. reflexivity.
-  - vm_compute. reflexivity.
-  - left. reflexivity.
-  - intros [].
-Qed.
-
-Lemma trailing_slashes_refuted :
-  forallb op_hosts_okb w_trailing_slashes = true /\ ~ attached_allowed false T0 w_trailing_slashes.
-Proof.
-  split; [vm_compute; reflexivity|].
-  apply (refute false T0 w_trailing_slashes [(s_a, s_v1)] [] s_a s_v1); try (vm_compute; reflexivity).
-  - left. reflexivity.
-  - intros [].
-Qed.
-
-Lemma invalid_max_age_refuted :
-  forallb op_hosts_okb w_invalid_max_age = true /\ ~ attached_allowed false T0 w_invalid_max_age.
-Proof.
-  split; [vm_compute; reflexivity|].
-  apply (refute false T0 w_invalid_max_age [(s_a, s_v1)] [] s_a s_v1); try (vm_compute; reflexivity).
-  - left. reflexivity.
-  - intros [].
-Qed.
+(* the three histories on which the jar used to attach a cookie the RFC forbids (repaired in /repo:
+   f48e726, 54412bb, 4fcae6e): nothing is attached any more *)
+Lemma repaired_witnesses :
+  snd (run (empty_jar false, T0) w_epoch_zero) = [ [] ] /\
+  snd (run (empty_jar false, T0) w_trailing_slashes) = [ [] ] /\
+  snd (run (empty_jar false, T0) w_invalid_max_age) = [ [] ].
+Proof. vm_compute. auto. Qed.
 
 Lemma shadowing_incomplete :
   forallb op_okb w_shadowing = true /\
